@@ -297,6 +297,17 @@ def rule_identity(ctx):
             return any(isinstance(y, ast.Name) and y.id in (A, K) and isinstance(y.ctx, ast.Store) for y in ast.walk(st_)) or \
                 any(isinstance(y, ast.Subscript) and isinstance(y.ctx, ast.Store) and norm.text(y.value) in (A, K) for y in ast.walk(st_))
         prep = [st_ for st_ in blk[:upto] if writes(st_)]
+        # ... plus (backward slice) the plain assignments of the block that define locals these statements read (`bound_to = endpoint.obj`)
+        changed = True
+        while changed:
+            changed = False
+            need = {y.id for st_ in prep for y in ast.walk(st_) if isinstance(y, ast.Name) and isinstance(y.ctx, ast.Load)}
+            for st_ in blk[:upto]:
+                if st_ not in prep and isinstance(st_, ast.Assign) and all(isinstance(t_, ast.Name) for t_ in st_.targets) and any(t_.id in need for t_ in st_.targets) \
+                        and not any(isinstance(y, ast.Call) for y in ast.walk(st_.value)):
+                    prep.append(st_)
+                    changed = True
+        prep.sort(key=lambda st_: blk.index(st_))
         problems = []
         try:
             for obj in (None, Sym("obj"), Sym("obj", truthy=False)):
